@@ -237,4 +237,19 @@ CHECKS = {
         quick=dict(tests=[dict(name="TestC15", cases=3200)]),
         thorough=dict(tests=[dict(name="TestC15", cases=48000)]),
     ),
+    "C20": dict(
+        level="exploration",
+        rule=("Inputs: small investment journals (cash, broker, loan, equity, income, expense accounts; 1-3 priced commodities in a star or chain towards V, direct and inverse "
+              "declarations) whose timeline mixes price-only steps, deposits/withdrawals in V, purchases (some with @performance), transfers between portfolio accounts, loans and expenses, "
+              "with sparse dates so that period ends fall on directive-free days; x --to, interval, --last; for weights also universe YAML files with nested classes and unclassified "
+              "commodities, -m mappings, --account/--commodity filters. Oracle weights (differential): `portfolio weights -v V --csv` vs `balance -v V --csv -s .` with the same flags: per "
+              "date and output row, weight = (sum of the A/L rows of the commodities mapped onto the row) / (sum of all A/L rows) within 2e-6; groups = sum of members; top level = 100%; "
+              "every balance date with holdings is a weights column; no NaN/Inf. Oracle returns: one line per period of the reference partition dated at its end; a period without flows "
+              "between portfolio and other accounts and with positive start value shows 100*(V_end/V_start-1) within 0.051 (V from the reference valuation, not from knut); a period with "
+              "unchanged prices and only deposits/withdrawals in V shows 0.0%. Non-trivial (weights): >=2 dates compared and >=2 commodities held; (returns): >=2 periods, >=1 flow-free or "
+              "deposit-only period, and a period end on a directive-free day."),
+        assumptions=["dates whose total holdings are (nearly) zero are skipped (shares undefined)", "weights without --from (the balance drops history before --from, weights do not)"],
+        quick=dict(tests=[dict(name="TestC20Weights", cases=1600), dict(name="TestC20Returns", cases=3200)]),
+        thorough=dict(tests=[dict(name="TestC20Weights", cases=32000), dict(name="TestC20Returns", cases=64000)]),
+    ),
 }
